@@ -55,6 +55,26 @@ def gen_cases(ctx, rng):
         cases.append({"dir": rng.choice(["upstream", "downstream"]), "chain": chain, "src": src, "ops": ops, "interrupted": True,
                       "horizon": 36000 * 1000 * L.MS, "seed": 7000 + i})
         stats["interrupted"] += 1
+    # several connections through the same bandwidth toxic at once (one toxic object serves every link of the proxy): the rate is per
+    # connection - a bulk transfer must not speed up, nor small messages slow down, because another connection is busy
+    stats["shared_by_connections"] = 0
+    for i in range(20 if ctx.tier == "quick" else 500):
+        R = rng.choice([1, 3, 10, 100])
+        chain = [L.tx("bandwidth", name="b", rate=R)]
+        nl = rng.range(2, 3)
+        srcs = []
+        bulk = min(32768, 100 * R * rng.range(3, 8) + rng.range(0, 99))
+        srcs.append([{"at": 1 * L.MS, "n": bulk}, {"at": 2 * L.MS, "n": rng.range(1, 50)}, {"at": 60000 * L.MS, "close": True}])
+        for k in range(1, nl):
+            t, src = rng.range(0, 50) * L.MS + rng.range(1, 999), []
+            for _ in range(rng.range(5, 25)):
+                src.append({"at": t, "n": rng.range(1, max(2, 20 * R))})
+                t += rng.choice([1, 7, 40, 130]) * L.MS + rng.range(0, 999)
+            src.append({"at": 60000 * L.MS, "close": True})
+            srcs.append(src)
+        cases.append({"dir": rng.choice(["upstream", "downstream"]), "chain": chain, "src": srcs[0], "srcs": srcs, "links": nl,
+                      "horizon": 36000 * 1000 * L.MS, "seed": 9000 + i})
+        stats["shared_by_connections"] += 1
     return cases, stats
 
 
@@ -89,7 +109,8 @@ def run(ctx):
         classify=lambda w: "rate-exceeded" if "more than" in w and "bytes/ms" in w else ("instalment" if "worth of budget" in w else ("stream" if "bytes" in w else "crash")),
         rule="one bandwidth toxic (rate from {1,2,3,7,10,100,1024,10^6} KB/s) at positions 1-3 with noop/latency neighbours; chunk sizes around "
              "100*rate (+-1), far below and several times above, a big chunk followed by small ones, bursts and idle gaps; plus links whose bandwidth stage is interrupted during its "
-             "instalments (neighbour added / removed / updated, own rate rewritten) judged on content and completeness; non-trivial = some "
+             "instalments (neighbour added / removed / updated, own rate rewritten) judged on content and completeness; plus 2-3 connections at "
+             "once through the same toxic (a bulk transfer next to streams of small messages), each judged and replayed on its own; non-trivial = some "
              "chunk exceeds 100*rate or two chunks arrive within the first one's budget; distinct by JSON",
         nontrivial=lambda c: len(c["src"]) > 2,
         model_filter=lambda c: not c.get("ops"),
